@@ -414,7 +414,7 @@ def probe_kind(e):
     return None
 
 
-def intervals(rep, idx):
+def intervals(rep, idx, rule="C02.6"):
     rm = idx.find_class("_RangeMap")
     nsites = 0
     for mname in ("get", "overlaps"):
@@ -428,14 +428,14 @@ def intervals(rep, idx):
                 pk = probe_kind(probe)
                 what = f"{mname}(): {ast.unparse(n)}"
                 nsites += 1
-                rule = BISECT_RULES.get((lname, pk))
-                if rule is None:
-                    rep.unk("C02.6", fi.site, what, f"no endpoint-kind rule for list {lname} probed with kind {pk}")
+                brule = BISECT_RULES.get((lname, pk))
+                if brule is None:
+                    rep.unk(rule, fi.site, what, f"no endpoint-kind rule for list {lname} probed with kind {pk}")
                     continue
-                if rule[0] is None:
-                    rep.bad("C02.6", fi.site, what, rule[1], line=n.lineno)
+                if brule[0] is None:
+                    rep.bad(rule, fi.site, what, brule[1], line=n.lineno)
                     continue
-                rep.check(n.func.attr == rule[0], "C02.6", fi.site, what, f"needs {rule[0]}: {rule[1]}")
+                rep.check(n.func.attr == brule[0], rule, fi.site, what, f"needs {brule[0]}: {brule[1]}")
     # insertion: index lists stay aligned (same index for _starts and _keys, matching probes)
     ins = get_fn(idx, "_RangeMap.insert")
     calls = {ir.show(x[1][1]): x for x, gen, ln in ins.calls_named("insert") if x[1][0] == 'attr'}
@@ -449,10 +449,10 @@ def intervals(rep, idx):
             wrong = "an endpoint list receives the wrong endpoint of the key"
         elif k[2][0] not in (s[2][0], t[2][0]):
             wrong = "the key list is indexed differently from the endpoint lists: the three parallel lists fall out of step"
-    rep.form(bool(ok), "C02.6", ins.fi.site, "insert(): starts / stops / keys receive the key at the position its own endpoint sorts to",
+    rep.form(bool(ok), rule, ins.fi.site, "insert(): starts / stops / keys receive the key at the position its own endpoint sorts to",
              "parallel sorted lists", wrong=wrong)
     st = ins.stores.get("self._values[key]")
-    rep.form(st is not None and st[0] == ('name', 'value'), "C02.6", ins.fi.site, "insert(): value stored under the key", "",
+    rep.form(st is not None and st[0] == ('name', 'value'), rule, ins.fi.site, "insert(): value stored under the key", "",
              nontrivial=False)
     # membership test in get(): L <= P and P < U
     g = get_fn(idx, "_RangeMap.get")
@@ -466,7 +466,7 @@ def intervals(rep, idx):
         if len(cmps) == 2:
             found = cmps
     if found is None:
-        rep.unk("C02.6", fi.site, "get(): membership test", "no two-sided comparison of the point with a range found")
+        rep.unk(rule, fi.site, "get(): membership test", "no two-sided comparison of the point with a range found")
     else:
         # canonical order relation is '<' (a <= b is not (b < a)); membership is  not (point < start)  and  point < stop
         ops = {}
@@ -478,7 +478,7 @@ def intervals(rep, idx):
                 ops[lhs[2]] = ('<point', pol)
         good = ops.get('start') == ('point<', False) and ops.get('stop') == ('point<', True)
         nsites += 2
-        rep.check(good, "C02.6", fi.site, "get(): start <= point and point < stop (half-open membership)",
+        rep.check(good, rule, fi.site, "get(): start <= point and point < stop (half-open membership)",
                   f"comparisons found: {[('' if pol else 'not ') + ir.show(p) for p, pol in found]}")
     rep.count("interval_sites", nsites)
 
